@@ -285,17 +285,23 @@ def _gen_op(r, name, mc, toy):
     elif name == "sk_new":
         op["d"] = libx.key_scalar(r, n)
         op["hash"] = libx.pick_hash_name(r, toy)
+        # sometimes the key with the opposite public point (same x) of an
+        # existing key: d' = n - d
+        op["rel"] = r.choice(["free", "free", "free", "neg"])
+        op["i"] = idx()
     elif name in ("sign_det", "sign_k"):
         op["i"] = idx()
         op["msg"] = core.hx(r.randbytes(r.choice([0, 1, 3, 8, 20])))
         op["enc"] = r.choice(["string", "strings", "der"])
         op["extra"] = core.hx(r.randbytes(r.choice([0, 0, 0, 4])))
+        op["default_hash"] = r.random() < 0.4
         if name == "sign_k":
             op["k"] = libx.key_scalar(r, n)
     elif name in ("verify", "verify_bad"):
         op["i"] = idx()
         op["s"] = idx()
         op["tweak"] = r.randrange(1, 1 << 16)
+        op["default_hash"] = r.random() < 0.4
     elif name == "precompute":
         op["i"] = idx()
         op["lazy"] = r.random() < 0.5
@@ -995,6 +1001,8 @@ class _State(object):
     def op_sk_new(self, op):
         env = self.env
         d = op["d"]
+        if op.get("rel") == "neg" and self.keys:
+            d = env.mc.n - self.kpick(op["i"]).d
         hf = self.hashfn(op["hash"])
         ok, sk = self.lib_op(
             "sk_new", lambda: env.lk.SigningKey.from_secret_exponent(
@@ -1052,9 +1060,15 @@ class _State(object):
         extra = core.unhx(op["extra"])
         se, sd = self._enc(op["enc"])
         hf = self.hashfn(k.hash)
-        ok, sig = self.lib_op(
-            "sign_det", lambda: k.sk.sign_deterministic(
-                msg, hashfunc=hf, sigencode=se, extra_entropy=extra), op)
+        if op.get("default_hash"):
+            # rely on the key's own default hash function
+            ok, sig = self.lib_op(
+                "sign_det", lambda: k.sk.sign_deterministic(
+                    msg, sigencode=se, extra_entropy=extra), op)
+        else:
+            ok, sig = self.lib_op(
+                "sign_det", lambda: k.sk.sign_deterministic(
+                    msg, hashfunc=hf, sigencode=se, extra_entropy=extra), op)
         if not ok:
             return
         self.state_changing += 1
@@ -1145,8 +1159,12 @@ class _State(object):
         want = ec.ecdsa_verify(env.mc, k.Q, e, int(r_), int(s_))
         BadSig = env.lk.BadSignatureError
 
+        use_default = op.get("default_hash") and k.hash == s["hash"]
+
         def fn():
             try:
+                if use_default:
+                    return k.vk.verify(s["sig"], msg, sigdecode=sd)
                 return k.vk.verify(s["sig"], msg, hashfunc=hf, sigdecode=sd)
             except BadSig:
                 return "bad"
